@@ -280,7 +280,10 @@ pub fn check_case(case: &Case, ctx: &mut Ctx) {
             Ok(v) => {
                 ctx.out_bd(&v);
                 let g = Dec::of(&v);
-                ctx.check(g == want, "with_scale_round/wrong", case, || format!("({}).with_scale_round({}, {}) = {} want {}", d.tok(), t, mode_name(mode), g.tok(), want.tok()));
+                let held = ctx.check(g == want, "with_scale_round/wrong", case, || format!("({}).with_scale_round({}, {}) = {} want {}", d.tok(), t, mode_name(mode), g.tok(), want.tok()));
+                if ctx.want_event() && crate::gen::ndigits(&d.n) < 400 && (t as i128 - d.s as i128).abs() < 2000 {
+                    ctx.log("with_scale_round", &[d.tok()], serde_json::json!({"scale": t, "mode": mode_name(mode)}), g.tok(), held);
+                }
             }
         }
     }
